@@ -210,8 +210,10 @@ theorem maybePassFrom_found (argTys : List Ty) : ∀ (ds : List FnDesc) (k i : N
   | d :: ds, k, i, h => by
     simp only [maybePassFrom] at h
     split at h
-    · simp only [Pick.found.injEq] at h
-      exact ⟨[], d, ds, by simp, by simp [h]⟩
+    · split at h
+      · simp at h
+      · simp only [Pick.found.injEq] at h
+        exact ⟨[], d, ds, by simp, by simp [h]⟩
     · obtain ⟨pre, d', post, e, hi⟩ := maybePassFrom_found argTys ds (k + 1) i h
       exact ⟨d :: pre, d', post, by simp [e], by simp only [List.length_cons]; omega⟩
 
